@@ -1327,3 +1327,26 @@ class LoopVariable:
 
     def visitExpression(self, node):
         self._loop_reference_detected(node)
+
+    # tags whose attributes hold Python expressions
+
+    def visitIncludeTag(self, node):
+        self._loop_reference_detected(node)
+
+    def visitNamespaceTag(self, node):
+        self._loop_reference_detected(node)
+
+    def visitTextTag(self, node):
+        self._loop_reference_detected(node)
+
+    def visitDefTag(self, node):
+        self._loop_reference_detected(node)
+
+    def visitBlockTag(self, node):
+        self._loop_reference_detected(node)
+
+    def visitCallTag(self, node):
+        self._loop_reference_detected(node)
+
+    def visitCallNamespaceTag(self, node):
+        self._loop_reference_detected(node)
